@@ -280,6 +280,16 @@ spec fn sub(a: Seq<KeyCode>, b: Seq<KeyCode>) -> bool { forall|k: KeyCode| #[tri
 
 spec fn all_mod_prefix(s: Seq<KeyCode>, n: int) -> bool { forall|j: int| 0 <= j < n ==> is_mod(#[trigger] s[j]) }
 
+// where the active mappings and the absorbed keys of a state come from (C02(a), C05: nothing foreign to the layout ever gets in)
+spec fn anm_extra(o: State, st: State, extra: Seq<KeyCode>) -> bool {
+  am_sub(st.active_mappings@, st.active_mappings@.len() as int, o.active_mappings@)
+  && (forall|x: KeyCode| #[trigger] st.mapped_absorbed_keys@.contains(x) ==> o.mapped_absorbed_keys@.contains(x) || extra.contains(x))
+}
+
+spec fn nr_frame(st: State, o: State) -> bool {
+  am_sub(st.active_mappings@, st.active_mappings@.len() as int, o.active_mappings@) && st.mapped_absorbed_keys@ == o.mapped_absorbed_keys@ && st.absorbing_trigger == o.absorbing_trigger
+}
+
 spec fn used_by_other(am: Seq<Mapping>, i: int, k: KeyCode) -> bool {
   exists|j: int| 0 <= j < am.len() && j != i && #[trigger] am[j].to@.contains(k)
 }
@@ -913,6 +923,7 @@ fn release_all_action_keys(state: &mut State) -> (evs: Vec<Event>)
     final(state).active_mappings@ == old(state).active_mappings@,
     sub(final(state).mapped_output_keys@, old(state).mapped_output_keys@),
     sub(final(state).pass_through_keys@, old(state).pass_through_keys@),
+    final(state).mapped_absorbed_keys@ == old(state).mapped_absorbed_keys@, final(state).absorbing_trigger == old(state).absorbing_trigger,
   { //@ | body
   let mut to_release: Vec<KeyCode> = Vec::new();
   let ghost pt_old = old(state).pass_through_keys@.to_set();
@@ -926,7 +937,7 @@ fn release_all_action_keys(state: &mut State) -> (evs: Vec<Event>)
         //@ C01 C02 C09 | effect of the call on the list of keys considered pressed
         state.input_pressed_keys@ == old(state).input_pressed_keys@,
         //@  | frame / auxiliary
-        state.active_mappings@ == old(state).active_mappings@,
+        state.active_mappings@ == old(state).active_mappings@, state.mapped_absorbed_keys@ == old(state).mapped_absorbed_keys@, state.absorbing_trigger == old(state).absorbing_trigger,
         //@ C19 | bookkeeping equals the fold of the emitted events; no redundant press or release
         state.pass_through_keys@.no_duplicates(),
         to_release@.no_duplicates(),
@@ -976,7 +987,7 @@ fn release_all_action_keys(state: &mut State) -> (evs: Vec<Event>)
         //@ C01 C02 C09 | effect of the call on the list of keys considered pressed
         state.input_pressed_keys@ == old(state).input_pressed_keys@,
         //@  | frame / auxiliary
-        state.active_mappings@ == old(state).active_mappings@,
+        state.active_mappings@ == old(state).active_mappings@, state.mapped_absorbed_keys@ == old(state).mapped_absorbed_keys@, state.absorbing_trigger == old(state).absorbing_trigger,
         mo_old == old(state).mapped_output_keys@.to_set(),
         state.mapped_output_keys@.to_set().subset_of(mo_old),
         //@ C19 | bookkeeping equals the fold of the emitted events; no redundant press or release
@@ -1082,6 +1093,9 @@ fn add_new_mapping(state: &mut State, new_key: &KeyCode, m: &Mapping) -> (res: S
     j3(*old(state)) ==> from_in(final(state).active_mappings@, final(state).active_mappings@.len() - 1, final(state).input_pressed_keys@),
     //@ C03 C08 | firing specification (support test, grouping of the layout by final trigger key)
     final(state).active_mappings@.len() >= 1 && final(state).active_mappings@.last().from@ == m.from@ && mview(final(state).active_mappings@.last()) == mview(*m),
+    //@ C02 C05 C08 | origin of the mappings in effect and of the absorbed keys: all but the last mapping in effect were in effect before; absorbed keys were absorbed before or are listed by the fired mapping
+    am_sub(final(state).active_mappings@, final(state).active_mappings@.len() - 1, old(state).active_mappings@),
+    forall|x: KeyCode| #[trigger] final(state).mapped_absorbed_keys@.contains(x) ==> old(state).mapped_absorbed_keys@.contains(x) || m.absorbing@.contains(x),
     //@ C09 | repeat request
     repeat_matches(m.repeat, res.repeat),
     //@ C01 C02 C09 | effect of the call on the list of keys considered pressed
@@ -1100,11 +1114,11 @@ fn add_new_mapping(state: &mut State, new_key: &KeyCode, m: &Mapping) -> (res: S
   let ghost nk0 = *new_key;
   let ghost h0 = held(*old(state));
   
-  proof { assert(jx(*state, m.to@)); assert(nonempty_from(state.active_mappings@)); }
+  proof { assert(jx(*state, m.to@)); assert(nonempty_from(state.active_mappings@)); lemma_am_sub_refl(state.active_mappings@); assert(anm_extra(*old(state), *state, m.absorbing@)); }
   if is_action_mapping(m) {
     let ghost e0 = events@; let ghost hm0 = held(*state);
     events.append(&mut release_action_mappings(state));
-    proof { let c1 = choose|c: Seq<Event>| events@ == e0 + c && apply(hm0, c) == Some(held(*state)); lemma_apply_append(h0, e0, c1); assert(jx(*state, m.to@)); assert(nonempty_from(state.active_mappings@)); assert((j2(*old(state)) ==> j2(*state)) && (j3(*old(state)) ==> j3(*state)) && (j4(*old(state)) ==> j4(*state)) && (j6(*old(state)) ==> j6(*state)) && sub(state.input_pressed_keys@, old(state).input_pressed_keys@) && (forall|x: KeyCode| #[trigger] old(state).input_pressed_keys@.contains(x) && (!old(state).mapped_absorbed_keys@.contains(x) || old(state).absorbing_trigger == Some(nk0)) ==> state.input_pressed_keys@.contains(x))); }
+    proof { let c1 = choose|c: Seq<Event>| events@ == e0 + c && apply(hm0, c) == Some(held(*state)); lemma_apply_append(h0, e0, c1); assert(jx(*state, m.to@)); assert(nonempty_from(state.active_mappings@)); assert((j2(*old(state)) ==> j2(*state)) && (j3(*old(state)) ==> j3(*state)) && (j4(*old(state)) ==> j4(*state)) && (j6(*old(state)) ==> j6(*state)) && sub(state.input_pressed_keys@, old(state).input_pressed_keys@) && (forall|x: KeyCode| #[trigger] old(state).input_pressed_keys@.contains(x) && (!old(state).mapped_absorbed_keys@.contains(x) || old(state).absorbing_trigger == Some(nk0)) ==> state.input_pressed_keys@.contains(x)) && anm_extra(*old(state), *state, m.absorbing@)); }
     let should_absorb = {
       match &state.absorbing_trigger {
         Some(absorbing_trigger) => *absorbing_trigger != *new_key,
@@ -1114,11 +1128,11 @@ fn add_new_mapping(state: &mut State, new_key: &KeyCode, m: &Mapping) -> (res: S
     if should_absorb {
       let ghost e1 = events@; let ghost hm1 = held(*state); let ghost am_pre = state.active_mappings@;
       events.append(&mut release_absorbed_keys(state));
-      proof { lemma_nonempty_sub(state.active_mappings@, am_pre); let c2 = choose|c: Seq<Event>| events@ == e1 + c && apply(hm1, c) == Some(held(*state)); lemma_apply_append(h0, e1, c2); assert(jx(*state, m.to@)); assert((j2(*old(state)) ==> j2(*state)) && (j3(*old(state)) ==> j3(*state)) && (j4(*old(state)) ==> j4(*state)) && (j6(*old(state)) ==> j6(*state)) && sub(state.input_pressed_keys@, old(state).input_pressed_keys@) && (forall|x: KeyCode| #[trigger] old(state).input_pressed_keys@.contains(x) && (!old(state).mapped_absorbed_keys@.contains(x) || old(state).absorbing_trigger == Some(nk0)) ==> state.input_pressed_keys@.contains(x))); }
+      proof { lemma_nonempty_sub(state.active_mappings@, am_pre); lemma_am_sub_trans(state.active_mappings@, am_pre, old(state).active_mappings@); let c2 = choose|c: Seq<Event>| events@ == e1 + c && apply(hm1, c) == Some(held(*state)); lemma_apply_append(h0, e1, c2); assert(jx(*state, m.to@)); assert((j2(*old(state)) ==> j2(*state)) && (j3(*old(state)) ==> j3(*state)) && (j4(*old(state)) ==> j4(*state)) && (j6(*old(state)) ==> j6(*state)) && sub(state.input_pressed_keys@, old(state).input_pressed_keys@) && (forall|x: KeyCode| #[trigger] old(state).input_pressed_keys@.contains(x) && (!old(state).mapped_absorbed_keys@.contains(x) || old(state).absorbing_trigger == Some(nk0)) ==> state.input_pressed_keys@.contains(x)) && anm_extra(*old(state), *state, m.absorbing@)); }
     }
   }
   
-  let ghost mo_s1 = state.mapped_output_keys@; let ghost pt_s1 = state.pass_through_keys@; let ghost am_s1 = state.active_mappings@; let ghost ip_s1 = state.input_pressed_keys@;
+  let ghost mo_s1 = state.mapped_output_keys@; let ghost pt_s1 = state.pass_through_keys@; let ghost am_s1 = state.active_mappings@; let ghost ip_s1 = state.input_pressed_keys@; let ghost ab_s1 = state.mapped_absorbed_keys@;
   proof { assert(held(*state) =~= state.pass_through_keys@.to_set().union(state.mapped_output_keys@.to_set())); }
   let pass_through_keys = &mut state.pass_through_keys;
   let mapped_output_keys = &mut state.mapped_output_keys;
@@ -1161,12 +1175,12 @@ fn add_new_mapping(state: &mut State, new_key: &KeyCode, m: &Mapping) -> (res: S
   } }
   
   proof { assert(held(*state) =~= state.pass_through_keys@.to_set().union(state.mapped_output_keys@.to_set()));
-    assert(state.active_mappings@ == am_s1);
+    assert(state.active_mappings@ == am_s1); assert(state.mapped_absorbed_keys@ == ab_s1);
     assert forall|x: KeyCode| #[trigger] state.pass_through_keys@.contains(x) implies !m.from@.contains(x) && !m.to@.contains(x) by { let j = choose|j: int| 0 <= j < state.pass_through_keys@.len() && state.pass_through_keys@[j] == x; assert(!m.from@.contains(state.pass_through_keys@[j])); }
     assert(state.input_pressed_keys@ == ip_s1);
     assert(jx(*state, m.to@));
     assert(nonempty_from(state.active_mappings@));
-    assert((j2(*old(state)) ==> j2(*state)) && (j3(*old(state)) ==> j3(*state)) && (j4(*old(state)) ==> j4(*state)) && (j6(*old(state)) ==> j6(*state)) && sub(state.input_pressed_keys@, old(state).input_pressed_keys@) && (forall|x: KeyCode| #[trigger] old(state).input_pressed_keys@.contains(x) && (!old(state).mapped_absorbed_keys@.contains(x) || old(state).absorbing_trigger == Some(nk0)) ==> state.input_pressed_keys@.contains(x))); }
+    assert((j2(*old(state)) ==> j2(*state)) && (j3(*old(state)) ==> j3(*state)) && (j4(*old(state)) ==> j4(*state)) && (j6(*old(state)) ==> j6(*state)) && sub(state.input_pressed_keys@, old(state).input_pressed_keys@) && (forall|x: KeyCode| #[trigger] old(state).input_pressed_keys@.contains(x) && (!old(state).mapped_absorbed_keys@.contains(x) || old(state).absorbing_trigger == Some(nk0)) ==> state.input_pressed_keys@.contains(x)) && anm_extra(*old(state), *state, m.absorbing@)); }
   for new_key in it: &m.to
     invariant
       //@ C19 | bookkeeping equals the fold of the emitted events; no redundant press or release
@@ -1178,13 +1192,13 @@ fn add_new_mapping(state: &mut State, new_key: &KeyCode, m: &Mapping) -> (res: S
       //@  | frame / auxiliary
       (forall|x: KeyCode| #[trigger] state.pass_through_keys@.contains(x) ==> !m.from@.contains(x) && !m.to@.contains(x)),
       //@ C05 | a release lifts only the key itself or outputs owned by its mappings; pass-through keys are not outputs of mappings in effect
-      (j2(*old(state)) ==> j2(*state)) && (j3(*old(state)) ==> j3(*state)) && (j4(*old(state)) ==> j4(*state)) && (j6(*old(state)) ==> j6(*state)) && sub(state.input_pressed_keys@, old(state).input_pressed_keys@) && (forall|x: KeyCode| #[trigger] old(state).input_pressed_keys@.contains(x) && (!old(state).mapped_absorbed_keys@.contains(x) || old(state).absorbing_trigger == Some(nk0)) ==> state.input_pressed_keys@.contains(x)),
+      (j2(*old(state)) ==> j2(*state)) && (j3(*old(state)) ==> j3(*state)) && (j4(*old(state)) ==> j4(*state)) && (j6(*old(state)) ==> j6(*state)) && sub(state.input_pressed_keys@, old(state).input_pressed_keys@) && (forall|x: KeyCode| #[trigger] old(state).input_pressed_keys@.contains(x) && (!old(state).mapped_absorbed_keys@.contains(x) || old(state).absorbing_trigger == Some(nk0)) ==> state.input_pressed_keys@.contains(x)) && anm_extra(*old(state), *state, m.absorbing@),
       //@  | frame / auxiliary
       it.seq().len() == m.to@.len(),
       forall|j: int| 0 <= j < m.to@.len() ==> *it.seq()[j] == m.to@[j],
     { //@ | body
     proof { assert(*new_key == m.to@[it.index@ as int]); assert(m.to@.contains(*new_key)); }
-    let ghost am0 = state.active_mappings@; let ghost ip_s = state.input_pressed_keys@;
+    let ghost am0 = state.active_mappings@; let ghost ip_s = state.input_pressed_keys@; let ghost ab0 = state.mapped_absorbed_keys@;
     let ghost e0 = events@; let ghost pt0 = state.pass_through_keys@; let ghost mo0 = state.mapped_output_keys@;
     proof { lemma_ts(pt0, *new_key); lemma_ts(mo0, *new_key); }
     if is_action_key(new_key) {
@@ -1205,7 +1219,7 @@ fn add_new_mapping(state: &mut State, new_key: &KeyCode, m: &Mapping) -> (res: S
               //@  | frame / auxiliary
               __i <= state.pass_through_keys@.len(),
               state.mapped_output_keys@ == mo0,
-              state.active_mappings@ == am0,
+              state.active_mappings@ == am0, state.mapped_absorbed_keys@ == ab0,
               //@ C19 | bookkeeping equals the fold of the emitted events; no redundant press or release
               state.pass_through_keys@.no_duplicates(),
               //@ C01 C02 C09 | effect of the call on the list of keys considered pressed
@@ -1259,10 +1273,14 @@ fn add_new_mapping(state: &mut State, new_key: &KeyCode, m: &Mapping) -> (res: S
       //@  | frame / auxiliary
       (forall|x: KeyCode| #[trigger] state.pass_through_keys@.contains(x) ==> !m.from@.contains(x) && !m.to@.contains(x)),
       //@ C05 | a release lifts only the key itself or outputs owned by its mappings; pass-through keys are not outputs of mappings in effect
-      (j2(*old(state)) ==> j2(*state)) && (j3(*old(state)) ==> j3(*state)) && (j4(*old(state)) ==> j4(*state)) && (j6(*old(state)) ==> j6(*state)) && sub(state.input_pressed_keys@, old(state).input_pressed_keys@) && (forall|x: KeyCode| #[trigger] old(state).input_pressed_keys@.contains(x) && (!old(state).mapped_absorbed_keys@.contains(x) || old(state).absorbing_trigger == Some(nk0)) ==> state.input_pressed_keys@.contains(x)),
+      (j2(*old(state)) ==> j2(*state)) && (j3(*old(state)) ==> j3(*state)) && (j4(*old(state)) ==> j4(*state)) && (j6(*old(state)) ==> j6(*state)) && sub(state.input_pressed_keys@, old(state).input_pressed_keys@) && (forall|x: KeyCode| #[trigger] old(state).input_pressed_keys@.contains(x) && (!old(state).mapped_absorbed_keys@.contains(x) || old(state).absorbing_trigger == Some(nk0)) ==> state.input_pressed_keys@.contains(x)) && anm_extra(*old(state), *state, m.absorbing@),
+      it.seq().len() == m.absorbing@.len(), forall|j: int| 0 <= j < m.absorbing@.len() ==> *it.seq()[j] == m.absorbing@[j],
     { //@ | body
+    proof { assert(*absorbed_key == m.absorbing@[it.index@ as int]); assert(m.absorbing@.contains(*absorbed_key)); }
+    let ghost ab_b = state.mapped_absorbed_keys@;
     if !state.mapped_absorbed_keys.contains(absorbed_key) {
       state.mapped_absorbed_keys.push(*absorbed_key);
+      proof { lemma_push_contains(ab_b, *absorbed_key); }
     }
   }
   if m.absorbing.len() > 0 {
@@ -1348,6 +1366,22 @@ pub open spec fn rrepeat_ok(r: ResultingRepeat) -> bool {
 // what the mapper needs of a grouped mapping
 spec fn gm_ok(m: Mapping) -> bool { m.from@.len() >= 1 && repeat_ok(m.repeat) }
 
+// ---- grouping of the layout by final trigger key (C03: "the last-listed mapping whose final trigger key is that key") ----
+// the views of the mappings of ms whose trigger ends in k, in listed order
+pub open spec fn group_of(ms: Seq<Mapping>, k: KeyCode) -> Seq<MappingV>
+  decreases ms.len()
+{
+  if ms.len() == 0 { Seq::empty() } else {
+    let g = group_of(ms.drop_last(), k);
+    if ms.last().from@.len() >= 1 && ms.last().from@.last() == k { g.push(mview(ms.last())) } else { g }
+  }
+}
+pub open spec fn views(v: Seq<Mapping>) -> Seq<MappingV> { v.map_values(|m: Mapping| mview(m)) }
+spec fn grouped_prefix(hm: Map<KeyCode, Vec<Mapping>>, ms: Seq<Mapping>) -> bool {
+  forall|k: KeyCode| #![trigger hm.contains_key(k)] #![trigger group_of(ms, k)]
+    (hm.contains_key(k) <==> group_of(ms, k).len() > 0) && (hm.contains_key(k) ==> views(hm[k]@) == group_of(ms, k))
+}
+
 spec fn hl_ok(h: HashedLayout) -> bool {
   forall|k: KeyCode, j: int| h.mappings@.contains_key(k) && 0 <= j < h.mappings@[k]@.len() ==> gm_ok(#[trigger] h.mappings@[k]@[j])
 }
@@ -1400,6 +1434,8 @@ fn make_hashed_layout(layout: &Layout) -> (h: HashedLayout)
   ensures
     //@ C03 C08 | firing specification (support test, grouping of the layout by final trigger key)
     hl_ok(h),
+    //@ C03 C02 C05 | the hashed layout groups exactly the mappings of the layout by their final trigger key, in listed order (nothing lost, nothing added, order kept)
+    grouped_prefix(h.mappings@, layout.mappings@),
   { //@ | body
   broadcast use vstd::std_specs::hash::group_hash_axioms;
   let mut mappings: HashMap<KeyCode, Vec<Mapping>> = HashMap::new();
@@ -1407,7 +1443,7 @@ fn make_hashed_layout(layout: &Layout) -> (h: HashedLayout)
   for mapping in it: &layout.mappings
     invariant
       //@  | frame / auxiliary
-      layout_ok(*layout),
+      layout_ok(*layout), mappings@ == Map::<KeyCode, Vec<Mapping>>::empty(),
       it.seq().len() == layout.mappings@.len(),
       forall|j: int| 0 <= j < layout.mappings@.len() ==> *it.seq()[j] == layout.mappings@[j],
     { //@ | body
@@ -1455,12 +1491,16 @@ fn make_hashed_layout(layout: &Layout) -> (h: HashedLayout)
       layout_ok(*layout),
       //@ C03 C08 | firing specification (support test, grouping of the layout by final trigger key)
       hm_ok(mappings@),
+      //@ C03 C02 C05 | grouping of the prefix of the layout handled so far
+      grouped_prefix(mappings@, layout.mappings@.take(it.index@ as int)),
       //@  | frame / auxiliary
       it.seq().len() == layout.mappings@.len(),
       forall|j: int| 0 <= j < layout.mappings@.len() ==> *it.seq()[j] == layout.mappings@[j],
     { //@ | body
     assert(mapping_ok(layout.mappings@[it.index@ as int]));
     proof { axiom_keycode_key_model(); assert(builds_valid_hashers::<std::collections::hash_map::RandomState>()); }
+    let ghost n = it.index@ as int; let ghost ms0 = layout.mappings@.take(n); let ghost ms1 = layout.mappings@.take(n + 1);
+    proof { assert(ms1.drop_last() =~= ms0); assert(ms1.last() == *mapping); }
     let ghost hm0 = mappings@;
     let ghost mut vfin: Option<Vec<Mapping>> = None;
     let last = final_key(&mapping.from);
@@ -1468,12 +1508,14 @@ fn make_hashed_layout(layout: &Layout) -> (h: HashedLayout)
     match mappings.get_mut(&last) {
       None => {
         mappings.insert(last, vec![mapping.clone()]);
-        proof { assert(mappings@[last]@.len() == 1); assert(mview(mappings@[last]@[0]) == mview(*mapping)); }
+        proof { assert(mappings@[last]@.len() == 1); assert(mview(mappings@[last]@[0]) == mview(*mapping));
+          assert(views(mappings@[last]@) =~= Seq::<MappingV>::empty().push(mview(*mapping))); assert(group_of(ms0, last).len() == 0); }
       },
       Some(existing) => {
         let ghost ex0 = existing@;
         existing.push(mapping.clone());
-        proof { assert(mview(existing@.last()) == mview(*mapping)); assert forall|j: int| 0 <= j < ex0.len() implies existing@[j] == ex0[j] by {} vfin = Some(*existing); }
+        proof { assert(mview(existing@.last()) == mview(*mapping)); assert forall|j: int| 0 <= j < ex0.len() implies existing@[j] == ex0[j] by {} vfin = Some(*existing);
+          assert(views(existing@) =~= views(ex0).push(mview(*mapping))); }
       }
     }
     proof {
@@ -1483,9 +1525,18 @@ fn make_hashed_layout(layout: &Layout) -> (h: HashedLayout)
           if hm0.contains_key(last) { if j < hm0[last]@.len() { assert(mappings@[k]@[j] == hm0[k]@[j]); } }
         } else { assert(mappings@[k] == hm0[k]); }
       }
+      assert forall|k: KeyCode| (mappings@.contains_key(k) <==> group_of(ms1, k).len() > 0) && (mappings@.contains_key(k) ==> views(mappings@[k]@) == group_of(ms1, k)) by {
+        assert(hm0.contains_key(k) <==> group_of(ms0, k).len() > 0);
+        if k == last {
+        } else {
+          assert(group_of(ms1, k) == group_of(ms0, k));
+          if hm0.contains_key(k) { assert(mappings@[k] == hm0[k]); }
+        }
+      }
     }
   }
   
+  proof { assert(layout.mappings@.take(layout.mappings@.len() as int) =~= layout.mappings@); }
   HashedLayout { mappings }
 }
 
@@ -1553,6 +1604,9 @@ fn newly_release(mapper: &mut Mapper, k: KeyCode) -> (res: StepResult)
     apply(held(old(mapper).state), res.events@) == Some(held(final(mapper).state)),
     //@ C02 C07 | release paths emit only releases
     all_released(res.events@),
+    //@ C02 C05 C08 | origin: every mapping still in effect was in effect before; the absorbed keys and their trigger are untouched
+    nr_frame(final(mapper).state, old(mapper).state),
+    j3b(old(mapper).layout, old(mapper).state) && j5(old(mapper).layout, old(mapper).state) ==> j3b(final(mapper).layout, final(mapper).state) && j5(final(mapper).layout, final(mapper).state),
     //@ C09 | repeat request
     res.repeat is Disabled,
     //@ C01 C02 C09 | effect of the call on the list of keys considered pressed
@@ -1575,6 +1629,8 @@ fn newly_release(mapper: &mut Mapper, k: KeyCode) -> (res: StepResult)
       apply(h0, events@) == Some(held(*state)),
       //@ C02 C07 | release paths emit only releases
       all_released(events@),
+      //@ C02 C05 C08 | origin of mappings in effect / absorbed keys untouched
+      nr_frame(*state, old(mapper).state),
       //@ C01 C02 | inclusion invariant J (every held output key is justified by what is pressed)
       j1(*state),
       j2(*state),
@@ -1638,6 +1694,8 @@ fn newly_release(mapper: &mut Mapper, k: KeyCode) -> (res: StepResult)
       apply(h0, events@) == Some(held(*state)),
       //@ C02 C07 | release paths emit only releases
       all_released(events@),
+      //@ C02 C05 C08 | origin of mappings in effect / absorbed keys untouched
+      nr_frame(*state, old(mapper).state),
       //@ C01 C02 | inclusion invariant J (every held output key is justified by what is pressed)
       j1(*state),
       j2(*state),
@@ -1687,6 +1745,8 @@ fn newly_release(mapper: &mut Mapper, k: KeyCode) -> (res: StepResult)
       apply(h0, events@) == Some(held(*state)),
       //@ C02 C07 | release paths emit only releases
       all_released(events@),
+      //@ C02 C05 C08 | origin of mappings in effect / absorbed keys untouched
+      nr_frame(*state, old(mapper).state),
       //@ C01 C02 | inclusion invariant J (every held output key is justified by what is pressed)
       j1(*state),
       //@ C02 | (d) trigger keys of mappings in effect are consumed (not passed through)
@@ -1726,6 +1786,7 @@ fn newly_release(mapper: &mut Mapper, k: KeyCode) -> (res: StepResult)
     }
   }
   
+  proof { if j3b(old(mapper).layout, old(mapper).state) && j5(old(mapper).layout, old(mapper).state) { lemma_origin_release(old(mapper).layout, old(mapper).state, *state); } }
   let repeat = ResultingRepeat::Disabled;
   
   StepResult { events, repeat }
@@ -1751,6 +1812,7 @@ impl State {
       r.input_pressed_keys@.len() == 0,
       //@  | frame / auxiliary
       r.active_mappings@.len() == 0,
+      r.mapped_absorbed_keys@.len() == 0, r.absorbing_trigger is None, r.pass_through_keys@.len() == 0, r.mapped_output_keys@.len() == 0,
     { //@ | body
     proof { assert(Seq::<KeyCode>::empty().to_set() =~= Set::<KeyCode>::empty()); }
     return State {
@@ -1816,6 +1878,74 @@ proof fn lemma_press_ip(a: State, b: State, k: KeyCode)
   lemma_push_contains(a.input_pressed_keys@, k);
 }
 
+
+// J3b / J5: every mapping in effect is (a clone of) a mapping of the hashed layout; every absorbed key is listed in the absorbing list of one
+spec fn in_hl(h: HashedLayout, mv: MappingV) -> bool { exists|k: KeyCode, i: int| h.mappings@.contains_key(k) && 0 <= i < h.mappings@[k]@.len() && mview(#[trigger] h.mappings@[k]@[i]) == mv }
+spec fn abs_in_hl(h: HashedLayout, x: KeyCode) -> bool { exists|k: KeyCode, i: int| h.mappings@.contains_key(k) && 0 <= i < h.mappings@[k]@.len() && (#[trigger] h.mappings@[k]@[i]).absorbing@.contains(x) }
+spec fn j3b(h: HashedLayout, st: State) -> bool { forall|j: int| 0 <= j < st.active_mappings@.len() ==> in_hl(h, mview(#[trigger] st.active_mappings@[j])) }
+spec fn j5(h: HashedLayout, st: State) -> bool { forall|x: KeyCode| #[trigger] st.mapped_absorbed_keys@.contains(x) ==> abs_in_hl(h, x) }
+proof fn lemma_origin_press(h: HashedLayout, o: State, st: State, k: KeyCode)
+  requires j3b(h, o), j5(h, o), np_origin(st, o, group(h, k))
+  ensures j3b(h, st), j5(h, st)
+{
+  let g = group(h, k);
+  assert forall|j: int| 0 <= j < st.active_mappings@.len() implies in_hl(h, mview(#[trigger] st.active_mappings@[j])) by {
+    let m = st.active_mappings@[j];
+    if o.active_mappings@.contains(m) { let j0 = choose|j0: int| 0 <= j0 < o.active_mappings@.len() && o.active_mappings@[j0] == m; assert(in_hl(h, mview(o.active_mappings@[j0]))); }
+    else { assert(in_group(g, mview(m))); let i = choose|i: int| 0 <= i < g.len() && mview(#[trigger] g[i]) == mview(m); assert(h.mappings@.contains_key(k)); assert(mview(h.mappings@[k]@[i]) == mview(m)); }
+  }
+  assert forall|x: KeyCode| #[trigger] st.mapped_absorbed_keys@.contains(x) implies abs_in_hl(h, x) by {
+    if !o.mapped_absorbed_keys@.contains(x) { assert(abs_in_group(g, x)); let i = choose|i: int| 0 <= i < g.len() && (#[trigger] g[i]).absorbing@.contains(x); assert(h.mappings@.contains_key(k)); assert(h.mappings@[k]@[i].absorbing@.contains(x)); }
+  }
+}
+proof fn lemma_origin_release(h: HashedLayout, o: State, st: State)
+  requires j3b(h, o), j5(h, o), nr_frame(st, o)
+  ensures j3b(h, st), j5(h, st)
+{
+  assert forall|j: int| 0 <= j < st.active_mappings@.len() implies in_hl(h, mview(#[trigger] st.active_mappings@[j])) by {
+    let m = st.active_mappings@[j];
+    assert(o.active_mappings@.contains(m)); let j0 = choose|j0: int| 0 <= j0 < o.active_mappings@.len() && o.active_mappings@[j0] == m; assert(in_hl(h, mview(o.active_mappings@[j0])));
+  }
+}
+
+// ---- origin of the mappings in effect and of the absorbed keys (C02(a), C05, C08) ----
+spec fn in_group(g: Seq<Mapping>, mv: MappingV) -> bool { exists|i: int| 0 <= i < g.len() && mview(#[trigger] g[i]) == mv }
+spec fn abs_in_group(g: Seq<Mapping>, x: KeyCode) -> bool { exists|i: int| 0 <= i < g.len() && (#[trigger] g[i]).absorbing@.contains(x) }
+spec fn np_origin(st: State, o: State, g: Seq<Mapping>) -> bool {
+  (forall|j: int| 0 <= j < st.active_mappings@.len() ==> o.active_mappings@.contains(#[trigger] st.active_mappings@[j]) || in_group(g, mview(st.active_mappings@[j])))
+  && (forall|x: KeyCode| #[trigger] st.mapped_absorbed_keys@.contains(x) ==> o.mapped_absorbed_keys@.contains(x) || abs_in_group(g, x))
+}
+proof fn lemma_np_origin_same(st: State, o: State, g: Seq<Mapping>)
+  requires am_sub(st.active_mappings@, st.active_mappings@.len() as int, o.active_mappings@), sub(st.mapped_absorbed_keys@, o.mapped_absorbed_keys@)
+  ensures np_origin(st, o, g)
+{}
+proof fn lemma_np_origin_shrink(a: State, b: State, o: State, g: Seq<Mapping>)
+  requires am_sub(b.active_mappings@, b.active_mappings@.len() as int, a.active_mappings@), sub(b.mapped_absorbed_keys@, a.mapped_absorbed_keys@), np_origin(a, o, g)
+  ensures np_origin(b, o, g)
+{
+  assert forall|j: int| 0 <= j < b.active_mappings@.len() implies o.active_mappings@.contains(#[trigger] b.active_mappings@[j]) || in_group(g, mview(b.active_mappings@[j])) by {
+    assert(a.active_mappings@.contains(b.active_mappings@[j]));
+    let j0 = choose|j0: int| 0 <= j0 < a.active_mappings@.len() && a.active_mappings@[j0] == b.active_mappings@[j];
+    assert(o.active_mappings@.contains(a.active_mappings@[j0]) || in_group(g, mview(a.active_mappings@[j0])));
+  }
+}
+// the state right after add_new_mapping fired g[i]
+proof fn lemma_np_origin_hit(st: State, o: State, ab1: Seq<KeyCode>, g: Seq<Mapping>, i: int)
+  requires 0 <= i < g.len(), st.active_mappings@.len() >= 1, mview(st.active_mappings@.last()) == mview(g[i]),
+    am_sub(st.active_mappings@, st.active_mappings@.len() - 1, o.active_mappings@),
+    sub(ab1, o.mapped_absorbed_keys@),
+    forall|x: KeyCode| #[trigger] st.mapped_absorbed_keys@.contains(x) ==> ab1.contains(x) || g[i].absorbing@.contains(x),
+  ensures np_origin(st, o, g)
+{
+  assert forall|j: int| 0 <= j < st.active_mappings@.len() implies o.active_mappings@.contains(#[trigger] st.active_mappings@[j]) || in_group(g, mview(st.active_mappings@[j])) by {
+    if j == st.active_mappings@.len() - 1 { assert(st.active_mappings@[j] == st.active_mappings@.last()); }
+  }
+  assert forall|x: KeyCode| #[trigger] st.mapped_absorbed_keys@.contains(x) implies o.mapped_absorbed_keys@.contains(x) || abs_in_group(g, x) by {
+    if !ab1.contains(x) { assert(g[i].absorbing@.contains(x)); }
+  }
+}
+
+
 //@ C01 C02 C03 C05 C08 C09 C14 C19 | default: fn newly_press
 fn newly_press(mapper: &mut Mapper, k: KeyCode) -> (res: StepResult)
   requires
@@ -1865,8 +1995,11 @@ fn newly_press(mapper: &mut Mapper, k: KeyCode) -> (res: StepResult)
     none_fired(group(old(mapper).layout, k), old(mapper).state, k) ==> res.repeat is Disabled,
     //@ C11 C09 | repeat parameters are non-negative (the event loop turns them into Durations)
     rrepeat_ok(res.repeat),
+    //@ C02 C05 C08 | origin: every mapping in effect afterwards was in effect before or is a mapping of the pressed key's group; every absorbed key was absorbed before or is listed by a mapping of that group
+    np_origin(final(mapper).state, old(mapper).state, group(old(mapper).layout, k)),
+    j3b(old(mapper).layout, old(mapper).state) && j5(old(mapper).layout, old(mapper).state) ==> j3b(final(mapper).layout, final(mapper).state) && j5(final(mapper).layout, final(mapper).state),
   { //@ | body
-  hide(j4); hide(j6); hide(nonempty_from); hide(from_in); hide(am_sub); hide(sup);
+  hide(j4); hide(j6); hide(nonempty_from); hide(from_in); hide(am_sub); hide(sup); hide(np_origin);
   let mappings = &mapper.layout.mappings;
   let mut state = &mut mapper.state;
   
@@ -1933,6 +2066,8 @@ fn newly_press(mapper: &mut Mapper, k: KeyCode) -> (res: StepResult)
         //@  | frame / auxiliary
         !any_hit,
       invariant
+        //@ C02 C05 C08 | origin of mappings in effect / absorbed keys
+        any_hit ==> np_origin(*state, st0, g),
         //@  | frame / auxiliary
         should_absorb ==> absorbed_keys@ == ab1,
         !should_absorb ==> (absorbed_keys@.len() == 0 && at1 == Some(k)),
@@ -1997,13 +2132,15 @@ fn newly_press(mapper: &mut Mapper, k: KeyCode) -> (res: StepResult)
             assert((old(mapper).state.input_pressed_keys@.contains(mapping.from@[j]) && !absorbed_keys@.contains(mapping.from@[j])) || mapping.from@[j] == k);
           }
         }
-        proof { let i = mappings@.len() - 1 - it.index@; assert(is_fired(g, st0, k, i)); }
+        proof { let i = mappings@.len() - 1 - it.index@; assert(is_fired(g, st0, k, i));
+          lemma_np_origin_hit(*state, st0, ab1, g, i); }
         any_hit = true;
         break;
       }
     }
   }
   let ghost hit1 = any_hit; let ghost rr1 = res.repeat; 
+  proof { if !hit1 { lemma_am_sub_refl(st0.active_mappings@); lemma_np_origin_same(*state, st0, g); } assert(np_origin(*state, st0, g)); }
   proof {
     if !hit1 { assert(none_fired(g, st0, k)) by { if hmap.contains_key(k) { assert(g == hmap[k]@); } else { assert(g.len() == 0); } } }
   }
@@ -2015,6 +2152,7 @@ fn newly_press(mapper: &mut Mapper, k: KeyCode) -> (res: StepResult)
         !any_hit ==> (state.pass_through_keys@ == old(mapper).state.pass_through_keys@ && state.mapped_output_keys@ == old(mapper).state.mapped_output_keys@ && state.active_mappings@ == old(mapper).state.active_mappings@ && state.input_pressed_keys@ == old(mapper).state.input_pressed_keys@ && state.mapped_absorbed_keys@ == ab1 && state.absorbing_trigger == at1 && res.events@.len() == 0 && res.repeat is Disabled),
         //@ C01 C02 | inclusion invariant J (every held output key is justified by what is pressed)
         !any_hit ==> no_mention_upto(state.active_mappings@, it.index@ as int, k),
+        np_origin(*state, st0, g),
         //@ C19 | bookkeeping equals the fold of the emitted events; no redundant press or release
         wf(*state),
         apply(h0, res.events@) == Some(held(*state)),
@@ -2057,12 +2195,12 @@ fn newly_press(mapper: &mut Mapper, k: KeyCode) -> (res: StepResult)
         let ghost e0 = res.events@; let ghost hm0 = held(*state); let ghost s_a = *state;
         res.events.append(&mut release_action_mappings(&mut state));
         proof { let c = choose|c: Seq<Event>| res.events@ == e0 + c && apply(hm0, c) == Some(held(*state)); lemma_apply_append(h0, e0, c);
-          lemma_frame_ram(s_a, *state); }
-        let ghost e1 = res.events@; let ghost am_pre = state.active_mappings@; let ghost hm1 = held(*state);
+          lemma_frame_ram(s_a, *state); lemma_am_sub_refl(s_a.active_mappings@); lemma_np_origin_shrink(s_a, *state, st0, g); }
+        let ghost e1 = res.events@; let ghost am_pre = state.active_mappings@; let ghost hm1 = held(*state); let ghost s_c = *state;
         res.events.append(&mut release_absorbed_keys(&mut state));
         proof { let c = choose|c: Seq<Event>| res.events@ == e1 + c && apply(hm1, c) == Some(held(*state)); lemma_apply_append(h0, e1, c);
           lemma_nonempty_sub(state.active_mappings@, am_pre);
-          lemma_nm_sub(state.active_mappings@, am_pre, k); }
+          lemma_nm_sub(state.active_mappings@, am_pre, k); lemma_np_origin_shrink(s_c, *state, st0, g); }
       }
       
       let ghost e2 = res.events@; let ghost pt2 = state.pass_through_keys@; let ghost s_b = *state;
@@ -2074,7 +2212,7 @@ fn newly_press(mapper: &mut Mapper, k: KeyCode) -> (res: StepResult)
       state.pass_through_keys.push(k);
       proof { assert(res.events@.drop_last() =~= e2); lemma_push_set(pt2, k); lemma_push_nodup(pt2, k); lemma_push_contains(pt2, k);
         assert(held(*state) =~= (pt2.to_set().union(state.mapped_output_keys@.to_set())).insert(k));
-        lemma_pass_key(s_b, *state, k); }
+        lemma_pass_key(s_b, *state, k); lemma_am_sub_refl(s_b.active_mappings@); lemma_np_origin_shrink(s_b, *state, st0, g); }
     }
   }
   
@@ -2082,7 +2220,8 @@ fn newly_press(mapper: &mut Mapper, k: KeyCode) -> (res: StepResult)
   let ghost st_pre = *state;
   state.input_pressed_keys.push(k);
   proof { lemma_push_contains(ip0, k);
-    lemma_press_ip(st_pre, *state, k);
+    lemma_press_ip(st_pre, *state, k); lemma_am_sub_refl(st_pre.active_mappings@); lemma_np_origin_shrink(st_pre, *state, st0, g);
+    if j3b(old(mapper).layout, st0) && j5(old(mapper).layout, st0) { lemma_origin_press(old(mapper).layout, st0, *state, k); }
     assert(j3(*state)) by {
       reveal(from_in);
       assert forall|j: int| 0 <= j < state.active_mappings@.len() implies sub(#[trigger] state.active_mappings@[j].from@, state.input_pressed_keys@) by {
@@ -2100,7 +2239,8 @@ fn newly_press(mapper: &mut Mapper, k: KeyCode) -> (res: StepResult)
 
 //@ C01 C02 C06 C07 C09 C14 C19 | default: impl Mapper
 impl Mapper {
-  pub closed spec fn inv(&self) -> bool { wf(self.state) && j1(self.state) && j2(self.state) && j3(self.state) && j4(self.state) && j6(self.state) && nonempty_from(self.state.active_mappings@) && hl_ok(self.layout) }
+  pub closed spec fn inv(&self) -> bool { wf(self.state) && j1(self.state) && j2(self.state) && j3(self.state) && j4(self.state) && j6(self.state) && nonempty_from(self.state.active_mappings@) && hl_ok(self.layout)
+    && j3b(self.layout, self.state) && j5(self.layout, self.state) }
 
   /// C01 at a single state: nothing considered pressed ==> nothing held on the output
   pub broadcast proof fn lemma_rest(&self)
